@@ -38,7 +38,10 @@ def read_rows(path):
 
 
 def write_input(path, rng, tps, n_pipes):
-    k = 0
+    # one file in eight starts hours into the trace: arrival * tps between 2^29 and 2^31, where a float product is coarser than 1e-7
+    k = rng.randrange(2**29, 2**31 - 10**5) if rng.random() < 0.125 else 0
+    # at most 15 significant digits, so that the text survives the float that jitter reads it into (exact comparisons stay fair)
+    places = 9 if k == 0 else max(0, min(9, 15 - len(str(2**31 // tps))))
     with open(path, "w", newline="") as f:
         w = csv.writer(f)
         w.writerow(COLS)
@@ -51,7 +54,7 @@ def write_input(path, rng, tps, n_pipes):
                 a = F(k, tps) + F(rng.randint(1, 999), 1000 * tps)
             else:
                 a = F(k * 100 + rng.randint(0, 99), 100 * tps)          # 0.29 at 100 ticks/s style: on a finer decimal grid
-            text = dec_str(a, 9)
+            text = dec_str(a, places)
             for o in range(rng.randint(1, 3)):
                 w.writerow([f"p{p + 1}", text if o == 0 else "", rng.choice(["QUERY", "INTERACTIVE", "BATCH_PIPELINE"]) if o == 0 else "",
                             f"op{o + 1}", "" if o == 0 else f"op{o}", rng.choice(["1", "2.5", "0.125"]), rng.choice(["const", "linear3", "sqrt"]),
@@ -99,10 +102,50 @@ def jitter_case(rng, tid, d):
         seen[r["pid"]] = k + 1
         outj.append({"pid": r["pid"], "arr": r["arr"], "rest": r["rest"], "src": index.get((r["pid"], k), 0)})
     line = {"kind": "jitter", "tid": tid, "tps": tps, "dnum": limbs(delta.numerator), "dden": limbs(delta.denominator), "seed": -1 if seed is None else seed,
-            "inp": [{"pid": r["pid"], "arr": r["arr"], "rest": r["rest"]} for r in ri], "out": outj, "same_again": same}
-    for f in (inp, out, out2):
-        os.unlink(f)
+            "inp": [{"pid": r["pid"], "arr": r["arr"], "rest": r["rest"]} for r in ri], "out": outj, "same_again": same, "same_cross": True}
+    os.unlink(out2)
+    if seed is None:
+        os.unlink(inp)
+        os.unlink(out)
+    else:
+        line["_cross"] = [inp, out, float(delta), seed]          # resolved by _cross_process() at the end of the chunk
     return line
+
+
+CHILD = """
+import io, json, sys
+sys.path.insert(0, sys.argv[1])
+from eudoxia.tools import jitter_command
+so = sys.stdout
+for inp, out, delta, seed in json.load(open(sys.argv[2])):
+    sys.stdout = sys.stderr = io.StringIO()
+    jitter_command(inp, out + '.x', delta, seed=seed, force=True)
+sys.stdout = so
+print('done')
+"""
+
+
+def _cross_process(lines, rng, d):
+    """Same input, delta and seed in ANOTHER interpreter (different string hashing): the files must be equal byte for byte."""
+    import json
+    import subprocess
+    jobs = [ln["_cross"] for ln in lines if "_cross" in ln]
+    if jobs:
+        jf = f"{d}/cross{rng.randrange(10**9)}.json"
+        with open(jf, "w") as f:
+            json.dump(jobs, f)
+        env = dict(os.environ, PYTHONHASHSEED=str(rng.randrange(1, 2**31)))
+        r = subprocess.run([sys.executable, "-c", CHILD, str(common.REPO), jf], env=env, capture_output=True, text=True, timeout=600)
+        if r.returncode != 0 or "done" not in r.stdout:
+            raise common.MachineryError(f"cross-process jitter run failed: {r.stderr[-400:]}")
+        os.unlink(jf)
+    for ln in lines:
+        job = ln.pop("_cross", None)
+        if job:
+            inp, out = job[0], job[1]
+            ln["same_cross"] = open(out).read() == open(out + ".x").read()
+            for f in (inp, out, out + ".x"):
+                os.unlink(f)
 
 
 def _quiet(fn):
@@ -173,7 +216,9 @@ def _chunk(args):
     rng = random.Random(seed)
     d = str(common.scratch())
     f = {"snap": snap_case, "jitter": jitter_case, "sample": sample_case}[kind]
-    return [[f(rng, tid0 + i, d)] for i in range(n)]
+    lines = [f(rng, tid0 + i, d) for i in range(n)]
+    _cross_process(lines, rng, d)
+    return [[ln] for ln in lines]
 
 
 def gen_lines(n_snap, n_jit, n_sample, seed):
